@@ -25,7 +25,11 @@ SameRecords(fin, fout) ==
               /\ fin.recs[i].fixed = fout.recs[i].fixed
 SameSamples(fin, fout) == fin.samples = fout.samples
 HeaderKept(fin, fout) == Rng(fin.defs) \subseteq Rng(fout.defs)      \* defs, targets, csel are sequences (JSON arrays)
-Aligned(fin, fout) == SameRecords(fin, fout) /\ SameSamples(fin, fout)
+(* the per-call clauses only need records and samples to line up (same number, CHROM, POS) *)
+SameShape(fin, fout) ==
+    /\ Len(fin.recs) = Len(fout.recs)
+    /\ \A i \in DOMAIN fin.recs : fin.recs[i].chrom = fout.recs[i].chrom /\ fin.recs[i].pos = fout.recs[i].pos
+Aligned(fin, fout) == SameShape(fin, fout) /\ SameSamples(fin, fout)
 
 Selected(e, r, s) == s \in Rng(e.targets) /\ r.chrom \in Rng(e.csel)
 UntouchedElsewhere(e) ==
@@ -49,7 +53,7 @@ OnlySupportedHetPhased(e) ==
         LET r == e.fout.recs[i] c == r.calls[s] IN
         (Selected(e, r, s) /\ MarkedByRun(e.fin.recs[i].calls[s], c)) =>
             /\ Het(c) /\ Len(c.gt) = 2 /\ \A k \in DOMAIN c.gt : c.gt[k] \in {0, 1}
-            /\ r.nalt = 1 /\ ~r.symbolic /\ ~r.dup
+            /\ r.nalt = 1 /\ ~r.dup
             /\ (e.onlysnv => r.snv)
 (* the same on the OUTPUT STATE of the selected calls: an old phase statement of the input must not survive on a call the
    run does not (or cannot) phase - a record of an unsupported type that still says "phased" is marked phased *)
@@ -58,6 +62,6 @@ PhasedOnlyWhereSupported(e) ==
         LET r == e.fout.recs[i] c == r.calls[s] IN
         (Selected(e, r, s) /\ StatesPhase(c)) =>
             /\ (~e.distrust => Het(c)) /\ Len(c.gt) = 2
-            /\ r.nalt = 1 /\ ~r.symbolic /\ ~r.dup
+            /\ r.nalt = 1 /\ ~r.dup
             /\ (e.onlysnv => r.snv)
 =============================================================================
